@@ -200,6 +200,15 @@ class SizedList(list):
         return self
 
 
+def ends_with_failure(eng, error):
+    """The events appended to the (sized) history end with ExecutionFailed carrying `error`: the terminal event of an
+    execution failed for its history length must still be recorded (C09/C11: history, record and notification agree)."""
+    appended = [e for e in list.__iter__(eng.execution_history[stubs.EX_ARN])]
+    if not appended or appended[-1].get("type") != "ExecutionFailed":
+        return False
+    return (appended[-1].get("executionFailedEventDetails") or {}).get("error") == error
+
+
 @condition(timeout={"quick": 60, "thorough": 120}, functions=["StateEngine.notify (execution history limit guard)", "update_execution_history"])
 def history_limit(n: int) -> bool:
     """
@@ -216,7 +225,7 @@ def history_limit(n: int) -> bool:
     got = outcome(log)
     # the state's own StateEntered event has been appended (n+1 events) when the guard looks
     if n + 1 > L_HIST:
-        return got == ("FAILED", "States.ExecutionHistoryLimitExceeded")
+        return got == ("FAILED", "States.ExecutionHistoryLimitExceeded") and ends_with_failure(eng, "States.ExecutionHistoryLimitExceeded")
     return got == ("next", "N")
 
 
@@ -300,7 +309,7 @@ def history_limit_on_retry(n: int) -> bool:
     eng.notify(ev, "id1")
     calls = [l for l in log if l[0] == "execute_task"]
     if n > L_HIST:
-        return outcome(log) == ("FAILED", "States.ExecutionHistoryLimitExceeded") and not calls
+        return outcome(log) == ("FAILED", "States.ExecutionHistoryLimitExceeded") and not calls and ends_with_failure(eng, "States.ExecutionHistoryLimitExceeded")
     return len(calls) == 1 and outcome(log)[0] == "other"
 
 
@@ -461,6 +470,6 @@ def history_limit_not_interceptable(n: int, how: int) -> bool:
     eng.execution_history[stubs.EX_ARN] = SizedList(n)
     eng.notify(ev, "id1")
     if n + 1 > L_HIST:
-        return outcome(log) == ("FAILED", "States.ExecutionHistoryLimitExceeded")
+        return outcome(log) == ("FAILED", "States.ExecutionHistoryLimitExceeded") and ends_with_failure(eng, "States.ExecutionHistoryLimitExceeded")
     calls = [l for l in log if l[0] == "execute_task"]
     return len(calls) == 1 and not [l for l in log if l[0] == "broadcast"]
